@@ -170,6 +170,10 @@ class Ctx:
         ok_gen = True
         for g in gen_files:
             p = self.gen_path(g)
+            if not os.path.exists(p):
+                self.broken.append({"what": f"generated file {g} is missing (its translator failed)", "detail": ""})
+                ok_gen = False
+                break
             bad = scan_forbidden(p)
             if bad:
                 self.broken.append({"what": f"forbidden declaration in {g}", "detail": ",".join(bad)})
